@@ -92,6 +92,9 @@ func cmdSweep(args []string) {
 		if strings.HasPrefix(f.Name(), "spec") || strings.HasPrefix(f.Name(), "init") {
 			continue
 		}
+		if w.checkedInContext(f) {
+			continue
+		}
 		fmt.Fprintf(os.Stderr, "verifying %s\n", funcKey(f))
 		tf := time.Now()
 		r := w.verifyFunc(f)
